@@ -1,5 +1,7 @@
 (* C03 - witnesses of the places where the pinned code (faithfully modelled) violates the property.
-   Each corresponds to one open entry of findings/C03.json and to a guard of a positive theorem. *)
+   Each corresponds to one OPEN entry of findings/C03.json and to a guard of a positive theorem.
+   (The witnesses of the four repaired defects - blob maxbytes 0, string minchars without maxchars, int into
+   enum/bool, bool into number - are gone; the repaired behaviour is now proved in Properties.v.) *)
 From Coq Require Import String Ascii.
 From Coq Require Import ZArith NArith Bool List Lia.
 Import ListNotations.
@@ -9,39 +11,6 @@ Require Import FV.Base.Util FV.Base.F64 FV.Base.PyVal FV.C01.Model FV.C01.Lemmas
 
 Definition is_err {A} (r : res A) : bool := match r with Err _ => true | Ok _ => false end.
 Definition is_ok {A} (r : res A) : bool := negb (is_err r).
-
-(* BLOBType(0, 0): maxbytes equals the default of its property datatype, is not exported, the rebuild raises *)
-Theorem C03_refuted_rebuild_blob_maxbytes_zero :
-  exists x j, wfx x /\ xt_export x = Ok j /\ get_datatype [] j = Err EWrongType /\ xt_copy x = Err EWrongType.
-Proof. exists (XBlob 0 0), (PDict [($"type", PStr $"blob")]). repeat split; vm_compute; reflexivity. Qed.
-
-(* StringType(3, UNLIMITED): maxchars is not exported, the rebuilt type has maxchars = minchars = 3 and rejects "abcd" *)
-Theorem C03_refuted_rebuild_string_minchars :
-  exists x j x' v, wfx x /\ xt_export x = Ok j /\ get_datatype [] j = Ok (Some x') /\
-    is_ok (dt_validate (erase x) v PNone) = true /\ dt_validate (erase x') v PNone = Err ERange.
-Proof.
-  exists (XString 3 UNL false false), (PDict [($"minchars", PInt 3); ($"type", PStr $"string")]),
-         (XString 3 3 false false), (PStr $"abcd").
-  repeat split; try (vm_compute; reflexivity); intros; discriminate.
-Qed.
-
-(* IntRange(1,2) against EnumType(a=1,b=2) and IntRange(0,1) against BoolType: the value sets are nested, the loop
-   finds every value, and then the missing return runs into the final raise *)
-Theorem C03_refuted_complete_int_into_enum_or_bool :
-  (exists a b, compat a b = Err EWrongType /\
-     forall z, in_setb (erase a) (PInt z) = true -> is_ok (dt_validate (erase b) (PInt z) PNone) = true) /\
-  compat (XInt 0 1) XBool = Err EWrongType.
-Proof.
-  split; [|vm_compute; reflexivity].
-  exists (XInt 1 2), (XEnum [] [($"a", 1%Z); ($"b", 2%Z)]). split; [vm_compute; reflexivity|].
-  intros z H. cbn in H. apply andb_true_iff in H as [H1 H2]. apply Z.leb_le in H1, H2.
-  assert (z = 1 \/ z = 2)%Z as [-> | ->] by lia; vm_compute; reflexivity.
-Qed.
-
-(* BoolType against IntRange(5,10): compatible() calls other(False), other(True) - __call__ has no limit check *)
-Theorem C03_refuted_sound_bool_into_number :
-  exists b v, compat XBool b = Ok tt /\ in_setb (erase XBool) v = true /\ dt_validate (erase b) v PNone = Err ERange.
-Proof. exists (XInt 5 10), (PBool true). repeat split; vm_compute; reflexivity. Qed.
 
 (* StructOf(a, b, optional=[b]) against StructOf(a, b, optional=[]): passes, {a: 1} is valid for the first only *)
 Theorem C03_refuted_sound_struct_optional_into_mandatory :
